@@ -14,7 +14,7 @@
        attempt_out = [lvm org.s org.f rx.s rx.f tx.s tx.f result]   (the request as seen on the wire)
        result      = [0 errclass] | [1 inter t0 t1 t2 t3 off rtd at prev]
        prev        = [ref inter ctx.s ctx.f crx.s crx.f srx.s srx.f]
-   case "c03.fallback": see below
+   case "c03.fallback", "c03.multi": see below
    case "c03.kstamps": args = attempts fallback_tx fallback_rx (per worker process) *)
 From Coq Require Import ZArith List String Bool.
 From ST Require Import Base.Ints Base.Value Model.NtpTime Model.Exchange Model.ExchangeOracle Extract.GlueBase.
@@ -168,6 +168,21 @@ Definition glue_C03 (k : string) (a o : list value) : option verdict :=
               | _ => [VZ 0]
               end in
             Some (functional expected o (C03_ok ooff ot0 ot1 ot2 ot3 [x]))
+        | None => None
+        end
+    | _, _ => None
+    end
+  else if is k "c03.multi" then
+    (* a round of MeasureClockOffsetSCION with two clients of which one fails first:
+       the round reports the one successful measurement.
+       args = t0 t1 t2 t3 (the stamps the successful client combined last) [xdesc ...]
+       outs = ok offset timestamp *)
+    match a, o with
+    | [VZ t0; VZ t1; VZ t2; VZ t3; VL xds], [VZ ok; VZ off; VZ ts] =>
+        match parse_all parse_xdesc xds with
+        | Some xs =>
+            Some (functional [VZ 1; VZ (clock_offset t0 t1 t2 t3); VZ ts] o
+                    (if ok =? 0 then true else C03_ok off t0 t1 t2 t3 xs))
         | None => None
         end
     | _, _ => None
